@@ -547,6 +547,25 @@ Section Accept.
                 end
     end.
 
+  (* why no path accepts the trace: at the first event that no surviving state can take, the
+     verdict "a ready task was not started" (5, the one a premature quiescent point produces) if any
+     state gave it, otherwise the first verdict; 0 when some path accepts every event *)
+  Fixpoint accept_why (sts : list dstate) (es : list oevent) : nat :=
+    match es with
+    | [] => 0%nat
+    | e :: r =>
+        let rs := flat_map (fun st => accept_event st e) sts in
+        match firstn 64 (oks rs) with
+        | [] =>
+            if existsb (fun a => match a with ABad 5 => true | _ => false end) rs then 5%nat
+            else match flat_map (fun a => match a with ABad w => [w] | AOk _ => [] end) rs with
+                 | w :: _ => w
+                 | [] => 8%nat
+                 end
+        | sts' => accept_why sts' r
+        end
+    end.
+
   (* after the last event: everything left is skipped by the scheduler, then Run returns *)
   Definition finish_run (st : dstate) : option dstate :=
     let st1 := pick_all FUEL (eager VF st) in
@@ -619,7 +638,7 @@ Definition explain_gcase (c : gcase) : nat :=
            if negb (p13_deps g [] (gc_events c)) then 13
            else if negb (p15_bound (if gc_serial c then 1 else gc_cap c) 0 (gc_events c)) then 15
            else match accept_all g cf [init_state []] (gc_events c) with
-                | [] => match accept g cf (init_state []) (gc_events c) with ABad w => w | AOk _ => 8 end
+                | [] => match accept_why g cf [init_state []] (gc_events c) with O => 8 | w => w end
                 | sts => if existsb (fun st => match finish_run g cf st with Some _ => true | None => false end) sts then 7 else 6
                 end
        | _ => 22
